@@ -31,8 +31,12 @@ type vrow struct {
 
 // goMap evaluates view `name` (with the given variant of v1) for one stored row.
 func goMap(name string, v1changed bool, r rosmar.VerifDocRow) []vrow {
-	if !r.HasValue && r.Xattrs == nil {
-		return nil
+	// "every document that has a body or xattrs": an xattrs column holding `null` or `{}` is no xattr at all
+	if !r.HasValue {
+		var xs map[string]any
+		if r.Xattrs == nil || json.Unmarshal(r.Xattrs, &xs) != nil || len(xs) == 0 {
+			return nil
+		}
 	}
 	var doc any = map[string]any{}
 	if r.IsJSON && r.HasValue {
@@ -138,10 +142,10 @@ func (w *ViewWorld) putDDoc(h int, changed, withV2 bool) error {
 }
 
 func (w *ViewWorld) Alphabet(tier int) []string {
-	ops := []string{"Set/k/1a", "Set/k/2", "Set/j/1", "Set/j/arr", "SetRaw/k", "Delete/k", "Delete/j", "SetXattrs/k", "SetXattrs/j", "WriteTombstone/k", "Add/k",
+	ops := []string{"Set/k/1a", "Set/k/2", "Set/j/1", "Set/j/arr", "SetRaw/k", "Delete/k", "Delete/j", "SetXattrs/k", "SetXattrs/j", "RemoveXattrs/k", "WriteTombstone/k", "Add/k",
 		"Purge", "SetWithMeta/k/above", "SetWithMeta/k/below", "SetWithMeta/k/last", "SetWithMeta/k/next", "B.Set", "DeleteWithMeta/j/above", "DeleteWithMeta/j/last", "PutDDoc/same", "PutDDoc/changed/h1", "PutDDoc/nov2", "Query", "QueryAll", "QueryStale", "DropRecreate"}
 	if tier > 0 {
-		ops = append(ops, "Incr/k", "RemoveXattrs/k", "WriteWithXattrs/j", "Touch/k")
+		ops = append(ops, "Incr/k", "WriteWithXattrs/j", "Touch/k")
 	}
 	return ops
 }
@@ -424,6 +428,37 @@ func (w *ViewWorld) checkViews(c *checker) {
 				continue // the changed map emits array keys; the numeric ranges then select nothing on both sides
 			}
 			got := viewString(a, "dd", name, ps.params)
+			// the other two entry points of the same query answer the same
+			var vres sgbucket.ViewResult
+			if cerr := a.ViewCustom(ctx, "dd", name, ps.params, &vres); cerr == nil {
+				var rows []string
+				for _, r := range vres.Rows {
+					k, _ := json.Marshal(r.Key)
+					v, _ := json.Marshal(r.Value)
+					rows = append(rows, fmt.Sprintf("%s:%s=%s", r.ID, k, v))
+				}
+				if vc := fmt.Sprintf("%d%v", vres.TotalRows, rows); vc != got {
+					c.add("C12", "viewcustom:"+ps.name, "view %s %s: View returned %s, ViewCustom %s", name, ps.name, got, vc)
+				}
+			} else if !strings.HasPrefix(got, "err:") {
+				c.add("C12", "viewcustom:"+ps.name, "view %s %s: View returned %s, ViewCustom failed: %v", name, ps.name, got, cerr)
+			}
+			if it, qerr := a.ViewQuery(ctx, "dd", name, ps.params); qerr == nil {
+				n := 0
+				for {
+					var row map[string]any
+					if !it.Next(ctx, &row) {
+						break
+					}
+					n++
+				}
+				_ = it.Close()
+				if !strings.HasPrefix(got, fmt.Sprintf("%d[", n)) {
+					c.add("C12", "viewquery:"+ps.name, "view %s %s: View returned %s, iterating ViewQuery gave %d rows", name, ps.name, got, n)
+				}
+			} else if !strings.HasPrefix(got, "err:") {
+				c.add("C12", "viewquery:"+ps.name, "view %s %s: View returned %s, ViewQuery failed: %v", name, ps.name, got, qerr)
+			}
 			exp := rowsString(ps.filter(want))
 			if got != exp {
 				c.add("C12", "rows:"+ps.name, "view %s %s returned %s, the map function over the current documents gives %s", name, ps.name, got, exp)
@@ -437,6 +472,15 @@ func (w *ViewWorld) checkViews(c *checker) {
 	}
 	if freshErr == nil {
 		_ = w.a[w.step%2].DeleteDDoc("fresh")
+	}
+	// include_docs is not among the parameters the statement determines, so its rows are not judged; but
+	// whatever it answers (it fails on a non-JSON body), no connection may stay checked out: on an in-memory
+	// bucket (one connection) the next write would block for ever, with the bucket mutex held
+	_, _ = a.View(ctx, "dd", "v2", map[string]any{"include_docs": true})
+	for hi, h := range w.h {
+		if n := rosmar.VerifInUse(h); n != 0 {
+			c.add("C20", "connection-leak", "%d connection(s) of handle %d still checked out after a view query with include_docs returned", n, hi)
+		}
 	}
 }
 
